@@ -435,3 +435,88 @@ pub fn run_with(args: &[String], data: Vec<u8>, rplan: &ReadPlan, wplan: &WriteP
 pub fn run_simple(args: &[&str], input: &[u8]) -> Obs {
     run(&Case::new(args, input))
 }
+
+// ------------------------------------------------------------------ child-process driver (C20)
+
+#[derive(Clone, Copy, Debug, PartialEq)]
+pub enum OutMode {
+    Pipe,
+    /// a pipe whose reader is already gone: every write fails with EPIPE
+    ClosedPipe,
+    /// /dev/full: every write fails with ENOSPC
+    DevFull,
+}
+
+#[derive(Clone, Debug)]
+pub struct ChildObs {
+    pub code: Option<i32>,
+    pub signal: Option<i32>,
+    pub stdout: Vec<u8>,
+    pub stderr: Vec<u8>,
+    pub timed_out: bool,
+}
+
+pub fn run_child(bin: &str, args: &[String], input: &[u8], mode: OutMode) -> std::io::Result<ChildObs> {
+    use std::os::fd::{FromRawFd, OwnedFd};
+    use std::os::unix::process::ExitStatusExt;
+    use std::process::{Command, Stdio};
+    let mut cmd = Command::new(bin);
+    cmd.args(args).stdin(Stdio::piped()).stderr(Stdio::piped());
+    cmd.env("RUST_BACKTRACE", "0");
+    match mode {
+        OutMode::Pipe => {
+            cmd.stdout(Stdio::piped());
+        }
+        OutMode::DevFull => {
+            cmd.stdout(std::fs::OpenOptions::new().write(true).open("/dev/full")?);
+        }
+        OutMode::ClosedPipe => {
+            let mut fds = [0i32; 2];
+            if unsafe { libc::pipe2(fds.as_mut_ptr(), libc::O_CLOEXEC) } != 0 {
+                return Err(std::io::Error::last_os_error());
+            }
+            unsafe { libc::close(fds[0]) };
+            let w = unsafe { OwnedFd::from_raw_fd(fds[1]) };
+            cmd.stdout(Stdio::from(w));
+        }
+    }
+    let mut child = cmd.spawn()?;
+    let mut stdin = child.stdin.take().unwrap();
+    let data = input.to_vec();
+    let feeder = std::thread::spawn(move || {
+        let _ = stdin.write_all(&data);
+    });
+    let mut out_pipe = child.stdout.take();
+    let out_reader = std::thread::spawn(move || {
+        let mut v = Vec::new();
+        if let Some(p) = out_pipe.as_mut() {
+            let _ = p.read_to_end(&mut v);
+        }
+        v
+    });
+    let mut err_pipe = child.stderr.take().unwrap();
+    let err_reader = std::thread::spawn(move || {
+        let mut v = Vec::new();
+        let _ = err_pipe.read_to_end(&mut v);
+        v
+    });
+    let t0 = std::time::Instant::now();
+    let mut timed_out = false;
+    let status = loop {
+        match child.try_wait()? {
+            Some(s) => break s,
+            None => {
+                if t0.elapsed().as_secs() > 20 {
+                    let _ = child.kill();
+                    timed_out = true;
+                    break child.wait()?;
+                }
+                std::thread::sleep(std::time::Duration::from_micros(300));
+            }
+        }
+    };
+    let _ = feeder.join();
+    let stdout = out_reader.join().unwrap_or_default();
+    let stderr = err_reader.join().unwrap_or_default();
+    Ok(ChildObs { code: status.code(), signal: status.signal(), stdout, stderr, timed_out })
+}
